@@ -183,6 +183,9 @@ func (da *DistributedAllocator) Allocate(ctx context.Context, subscriberID strin
 	var prefix *net.IPNet
 	var epoch uint64
 
+	// A failed store write must only undo an allocation made by this call
+	existed := da.hasAllocation(subscriberID)
+
 	// Use appropriate allocator based on mode
 	if da.mode == PoolModeLease {
 		// Lease mode: use epoch bitmap allocator
@@ -213,11 +216,13 @@ func (da *DistributedAllocator) Allocate(ctx context.Context, subscriberID strin
 	}
 
 	if err := da.saveAllocation(ctx, alloc); err != nil {
-		// Rollback local allocation
-		if da.mode == PoolModeLease {
-			da.epochAllocator.Release(ctx, subscriberID)
-		} else {
-			da.allocator.Release(subscriberID)
+		// Rollback local allocation (an existing one still matches the stored record)
+		if !existed {
+			if da.mode == PoolModeLease {
+				da.epochAllocator.Release(ctx, subscriberID)
+			} else {
+				da.allocator.Release(subscriberID)
+			}
 		}
 		return nil, fmt.Errorf("save allocation: %w", err)
 	}
@@ -232,6 +237,8 @@ func (da *DistributedAllocator) AllocateWithMAC(ctx context.Context, subscriberI
 
 	var prefix *net.IPNet
 	var epoch uint64
+
+	existed := da.hasAllocation(subscriberID)
 
 	// Use appropriate allocator based on mode
 	if da.mode == PoolModeLease {
@@ -260,15 +267,26 @@ func (da *DistributedAllocator) AllocateWithMAC(ctx context.Context, subscriberI
 	}
 
 	if err := da.saveAllocation(ctx, alloc); err != nil {
-		if da.mode == PoolModeLease {
-			da.epochAllocator.Release(ctx, subscriberID)
-		} else {
-			da.allocator.Release(subscriberID)
+		if !existed {
+			if da.mode == PoolModeLease {
+				da.epochAllocator.Release(ctx, subscriberID)
+			} else {
+				da.allocator.Release(subscriberID)
+			}
 		}
 		return nil, fmt.Errorf("save allocation: %w", err)
 	}
 
 	return prefix, nil
+}
+
+// hasAllocation reports whether the subscriber currently holds an allocation.
+// Caller must hold da.mu.
+func (da *DistributedAllocator) hasAllocation(subscriberID string) bool {
+	if da.mode == PoolModeLease {
+		return da.epochAllocator.Lookup(subscriberID) != nil
+	}
+	return da.allocator.Lookup(subscriberID) != nil
 }
 
 // Renew updates the epoch for an existing allocation (lease mode).
